@@ -13,7 +13,8 @@ LOOP_COQ_FILES = ["Bytes.v", "ParserModel.v", "BuilderModel.v", "ConnModel.v", "
                   "LoopModel.v", "ServerModel.v", "CallerModel.v", "LoopProofs.v", "LoopSpec.v", "LoopSpecProofs.v"]
 
 SUBSYSTEMS = ["database", "update", "stored_playlist", "playlist", "player", "mixer", "output", "options", "partition",
-              "sticker", "subscription", "message", "neighbor", "mount", "fingerprint", "Player", "x-y_z"]
+              "sticker", "subscription", "message", "neighbor", "mount", "fingerprint", "Player", "x-y_z",
+              "queue", "Queue", "queues", "playlists", "Database", "stored-playlist", "storedplaylist", "mix", "outputs"]
 
 FLUSH = ["S*", "D0", "S*", "D0", "t200", "S*", "D0", "S*", "D0", "t200", "S*", "D0"]
 
@@ -250,6 +251,8 @@ def gen_request(rng, rid, allow_fail=True, allow_bin=True):
 def gen_session(rng, n_steps, faults=False, cancel=True, with_drop=False, pauses=False):
     """A random schedule against the rule-abiding server.  -> (labels, info)"""
     labels = ["D0"]
+    if rng.random() < 0.3:
+        labels.insert(0, "k" + str(rng.choice([1, 3, 7, 16, 24])))     # the transport takes only a few bytes per write
     info = {"requests": {}, "cancelled": set(), "notified": [], "fault": None, "dropped": False}
     rid = 0
     live = []
@@ -270,7 +273,7 @@ def gen_session(rng, n_steps, faults=False, cancel=True, with_drop=False, pauses
         elif r < 0.80:
             labels.append(rng.choice(["D0", "D0", "D1", "D2", "D3", "D7", "D20"]))
         elif r < 0.93:
-            labels.append("t" + str(rng.choice([1, 30, 50, 99, 100, 101, 250])))
+            labels.append("t" + str(rng.choice([1, 30, 50, 99, 100, 101, 250, 250, 31000, 45000, 3600000])))
         elif r < 0.955 and pauses:
             # back-pressure episode: the peer stops reading, something is issued, time passes, it reads again
             rid += 1
@@ -373,6 +376,25 @@ def judge_session(r, password=False):
             reqs += 1
             if line == b"command_list_ok_begin":
                 in_list = True
+    # (c) notifications keep flowing: a delivery that completes a reply while the client idles (its last line is idle and
+    # nothing else is outstanding) must be answered by a new idle before the client rests again
+    cum = b""
+    last = None
+    lines_by_op2 = {}
+    for i, l in t.written_lines():
+        lines_by_op2.setdefault(i, []).append(l)
+    closed_at = min(t.flag("X") + t.flag("D") + [10 ** 9])
+    for i in range(len(t.ops)):
+        before = count_responses(cum)
+        for j, x in delivered:
+            if j == i:
+                cum += x
+        after = count_responses(cum)
+        new_lines = lines_by_op2.get(i, [])
+        if after > before and last == b"idle" and i < closed_at and b"idle" not in new_lines and not password:
+            out.append(f"an idle reply was delivered (operation {i}: {t.ops[i][:60]}) but the client did not issue idle again; it wrote {new_lines}")
+        if new_lines:
+            last = new_lines[-1]
     return out
 
 
